@@ -85,6 +85,18 @@ TEXTS = {
         "level_note": "Trusted: T-OPS (torch.chunk sizes, cat/reshape/view semantics), the Transform contract of the parts, A-API (add_transform is called num_transforms times as documented).",
         "technique": "static symbolic expansion + pair rules (constructor/forward/inverse) with alpha-normalised expressions",
     },
+    "C09": {
+        "level_text": "Necessary conditions for 'increasing bijection of the box, identity in tails', decided for all bin counts, boxes and parameter values on the symbolic expansion of the four spline families (siblings cross-checked against one template): exact end-point pinning of every searched knot vector, forward/inverse knot-side and box agreement, positivity of bin sizes and knot derivatives by a sign lattice under the ValueError guards, closed inside mask with a provably complementary outside mask, identity tails, square inner box, forwarded hyper-parameters and boundary-derivative constant, clamp and index repair. Continuity and strict monotonicity across bins (inequalities between computed numbers) and the C1 junction identity are out of reach and NOT claimed.",
+        "design_ref": "DESIGN.md 1.8, 1.10, 2.C09",
+        "level_note": "Trusted: A-CFG (hyper-parameters have the sign of their defaults), T-OPS (softmax/softplus/exp positive; F.pad, cumsum, gather semantics), the bin-search helper (C20 UT-SEARCH).",
+        "technique": "static symbolic expansion + family/sibling template + sign lattice + condition normaliser",
+    },
+    "C17": {
+        "level_text": "Necessary conditions for 'out-of-domain rejected, in-domain accepted', for all inputs and boxes: each restricted entry's InputOutsideDomain guard is the first use of the raw input and equals the slot table in bound and strictness; the tail junction is routed to the spline by a closed mask; Sigmoid.inverse clamps between guard and logs; square-box call sites for the three splines that assume it; and the absolute right-edge epsilon of the bin search meets unit knots only (EPS-UNITS) -- the rule that found the large-tail-bound index error repaired in /repo. Finiteness of results for every in-domain input is a value question and NOT claimed.",
+        "design_ref": "DESIGN.md 1.7, 1.8, 2.C17",
+        "level_note": "Trusted: the slot table of (entry, bound, open/closed) confirmed against docstrings and tests; T-OPS; searchsorted adds eps to the last knot only (C20).",
+        "technique": "static guard dominance with canonical min/max atoms + units lattice on knot vectors + call-site rule",
+    },
 }
 
 NOT_CLAIMED = {}
